@@ -409,6 +409,50 @@ def gen_dense_baseline(rng):
     return bytes(out)
 
 
+def gen_fblk_case(rng):
+    """one block through the whole decode_mcu with >= BUFSIZE bytes available (unchecked fast path):
+    random data, FF/00-rich data, worst-case codes, a marker early / late / absent"""
+    dcb, dcv = STD_DC_BITS, STD_DC_VALS
+    mode = rng.below(4)
+    if mode == 0:
+        acb = [0] * 16
+        acb[7], acb[8] = 255, 1
+        acv = rng.shuffle(range(256))
+    elif mode == 1:
+        acb = [0, 2, 1, 3, 3, 2, 4, 3, 5, 5, 4, 4, 0, 0, 1, 125]
+        acv = rng.shuffle(range(256))[:162]
+    elif mode == 2:       # one code per length, the 16-bit code carries 15 bits
+        acb = [1] * 16
+        acv = [0x10 * (i + 1) for i in range(15)] + [0x0F]
+        dcb, dcv = [1] * 16, list(range(16))
+    else:
+        acb = [0, 1, 1, 1, 1, 1, 1, 1, 1, 1, 1, 1, 1, 1, 1, 1]
+        acv = [rng.choice([0xF1, 0xFF, 0xF0, 0x00, 0xE2, 0x71, 0x0F, rng.below(256)]) for _ in range(15)]
+    n = rng.choice([512, 512, 513, 520, 600, 700])
+    kind = rng.below(4)
+    data = bytearray()
+    while len(data) < n:
+        if kind == 0:
+            b = rng.below(255)
+        elif kind == 1:
+            b = rng.choice([0xFF, 0xFF, 0xFF, rng.below(256)])
+        else:
+            b = rng.choice([0xFF, 0xFE, 0x7F, rng.below(8), rng.below(256)])
+        data.append(b)
+        if b == 0xFF:
+            data.append(0)
+    r = rng.below(5)
+    if r == 0:
+        p = rng.below(40)
+        data[p:p + 2] = bytes([0xFF, rng.choice([0xD9, 0xD0, 0xC4, 0x01])])
+    elif r == 1:
+        p = rng.range(40, len(data) - 2)
+        data[p:p + 2] = bytes([0xFF, rng.choice([0xD9, 0xD3, 0xDA])])
+    if data[-1] == 0xFF:
+        data.append(0)
+    return "fblk %s | %s | %s | %s | %s" % (" ".join(map(str, dcb)), " ".join(map(str, dcv)), " ".join(map(str, acb)), " ".join(map(str, acv)), bytes(data).hex())
+
+
 class BitW:
     """bit writer with JPEG 0xFF byte stuffing"""
 
@@ -893,13 +937,15 @@ def run(ctx):
     nblk = ctx.n(1000, 20000)
     for i in range(nblk):
         cases.append((gen_blk_case(rng), "blk"))
+    for i in range(ctx.n(600, 12000)):
+        cases.append((gen_fblk_case(rng), "fblk"))
     return run_cases(ctx, drv, exe, blk, cases, oracle_every=1 if not ctx.thorough() else 3)
 
 
 def run_cases(ctx, drv, exe, blk, cases, oracle_every=1):
     rng = ctx.rng
     hdr_cases = [(l, k) for (l, k) in cases if l.startswith("hdr")]
-    blk_cases = [(l, k) for (l, k) in cases if l.startswith("blk ")]
+    blk_cases = [(l, k) for (l, k) in cases if l.startswith("blk ") or l.startswith("fblk ")]
     dec_given = [(l, k) for (l, k) in cases if l.startswith("dec ")]
     hist_cases = [(l, k) for (l, k) in cases if l.startswith("hist ")]
     crop_cases = [(l, k) for (l, k) in cases if l.startswith("crop ")]
@@ -1004,6 +1050,7 @@ def run_cases(ctx, drv, exe, blk, cases, oracle_every=1):
     # ---- one-block decode: real decode_mcu_slow vs block model
     bdis = 0
     over = 0
+    fastpath = {}
     if blk_cases:
         bimpl = run_lines(ctx, blk, [l for l, _ in blk_cases], "decode_mcu_slow")
         for j, ((line, kind), res) in enumerate(zip(blk_cases, bimpl)):
@@ -1011,6 +1058,14 @@ def run_cases(ctx, drv, exe, blk, cases, oracle_every=1):
                 continue
             if mlines is not None:
                 m = mlines[len(hdr_cases) + j]
+                if line.startswith("fblk "):
+                    # coefficients always; stop position / register fill only when the model's fast path met no marker
+                    fastpath["model-" + ("slow" if m.endswith(" slow") else "fast" if " pos=" in m else "other")] = fastpath.get(
+                        "model-" + ("slow" if m.endswith(" slow") else "fast" if " pos=" in m else "other"), 0) + 1
+                    m = re.sub(r" maxread=-?\d+$", "", m)
+                    if m.endswith(" slow") or res.endswith(" slow"):
+                        m = re.sub(r" (slow|pos=\d+ bits=\d+)$", "", m)
+                        res = re.sub(r" (slow|pos=\d+ bits=\d+)$", "", res)
                 mm = re.sub(r" kmax=\d+$", "", m)
                 km = re.search(r" kmax=(\d+)$", m)
                 if km and int(km.group(1)) >= 64:
@@ -1031,6 +1086,7 @@ def run_cases(ctx, drv, exe, blk, cases, oracle_every=1):
     ctx.cov["oracle_runs"] = len(dec_lines)
     ctx.cov["oracle_runs_with_output_produced"] = produced
     ctx.cov["block_cases_with_k_beyond_63"] = over
+    ctx.cov["fast_path_block_cases"] = fastpath
     ctx.cov["rule"] = ("valid JPEGs from the real encoder (baseline, 12-bit, progressive, arithmetic seq/prog, lossless 2..16 bit, CMYK) x "
                        "single-field mutations (length/index/count/precision/dimension) x truncation at marker boundaries and random offsets x "
                        "segment duplication/reordering/deletion/insertion x bit flips; grammar-generated headers; dense-table baseline streams; "
